@@ -267,14 +267,19 @@ RetGuards(c, e) ==
           G("C10", e.code = "OK" =>
                        \E w \in W : /\ w.k = "m.cs" /\ w.name = p.name /\ w.ok
                                     /\ w.ti \in TopicLookups(W, p.topic)
-                                    /\ w.dms = EffDeadline(p.ack) /\ w.push = p.push
+                                    /\ w.push = p.push
                                     \* attached before the call returned (C16)
                                     /\ \E a \in W : a.k = "t.attach" /\ a.si = w.si /\ a.ti = w.ti),
           G("C16", e.code = "OK" =>
                        \E w \in W : w.k = "m.cs" /\ w.name = p.name /\ w.ok
                                     /\ \E a \in W : a.k = "t.attach" /\ a.si = w.si /\ a.ti = w.ti),
-          G("C10", e.code = "OK" => (e.body.name = p.name /\ e.body.ack * SecMs = EffDeadline(p.ack) /\ e.body.push = p.push
+          G("C10", e.code = "OK" => (e.body.name = p.name /\ e.body.push = p.push
                                      /\ e.body.topic \in {p.topic, DeletedTopicName})),
+          \* the deadline in force is the requested one raised to the minimum; for a requested value
+          \* outside the valid range (negative, below the minimum) that is "handled cleanly" (C17)
+          G(IF p.ack >= MinAckSec THEN "C10" ELSE "C17", e.code = "OK" =>
+                       /\ e.body.ack * SecMs = EffDeadline(p.ack)
+                       /\ \A w \in W : (w.k = "m.cs" /\ w.name = p.name /\ w.ok) => w.dms = EffDeadline(p.ack)),
           G("C12", e.code \notin {"OK", "NOT_FOUND", "ALREADY_EXISTS", "INVALID_ARGUMENT"} =>
                        \E w \in W : w.k = "m.cs" /\ w.name = p.name /\ w.ok /\ w.si \in DOMAIN S /\ S[w.si].st # "live") }
       [] p.op = "GetSub" ->
@@ -412,7 +417,21 @@ PushAckGuards(e) ==
 PushNackGuards(e) ==
     IF ~SiKnown(e) \/ S[e.si].push = "" \/ ModCandidates(e.si, e) # {} THEN {} ELSE
     { G("C14", \A i \in 1..Len(e.mods) : e.mods[i].ack \in DOMAIN S[e.si].lease =>
-                  LastAnswer(e.si, S[e.si].lease[e.mods[i].ack].m) \notin PushSuccess) }
+                  LastAnswer(e.si, S[e.si].lease[e.mods[i].ack].m) \notin PushSuccess),
+      \* an exchange the endpoint has not answered yet (held, or its answer is still on its way) has
+      \* not failed before the ack deadline: giving the message back earlier makes the next round
+      \* POST it again although nothing failed
+      G("C14", \A i \in 1..Len(e.mods) :
+                  (/\ e.mods[i].ack \in DOMAIN S[e.si].lease
+                   /\ LastAnswer(e.si, S[e.si].lease[e.mods[i].ack].m) < -1)
+                  => e.t + Early >= S[e.si].lease[e.mods[i].ack].lo) }
+\* The endpoint sends a delayed answer: it counts if no newer exchange for that message was opened
+\* meanwhile and the delivery is still outstanding (the answer arrived within the deadline).
+HttpAnswered(e) ==
+    IF SubsNamed(e.sub) = {} THEN httpLast ELSE
+    LET si == NewestNamed(e.sub) IN
+    IF LastAnswer(si, e.m) = -(100 + e.attempt) /\ S[si].st = "live" /\ e.m \in LeasedMsgs(S[si])
+    THEN Put(httpLast, <<si, e.m>>, e.code) ELSE httpLast
 
 LateGuards(e) ==
     { G("BIND", e.t >= now),
@@ -508,15 +527,18 @@ EvGuards(e) ==
       [] e.k = "ret" -> IF e.c \in DOMAIN pend THEN RetGuards(e.c, e) ELSE { G("BIND", FALSE) }
       [] e.k \in {"cancel", "lret"} -> {}
       [] e.k = "http" -> HttpGuards(e)
+      [] e.k = "httpans" -> {}
       [] e.k = "quiet" ->
             \* C06: at rest, no message sits in the backlog of a live subscription while a
             \* consumer that can take it is waiting on that subscription
-            { G("C06", \A c \in DOMAIN pend :
+            \* (when a consumer of that subscription was abandoned earlier, the stuck one is also a
+            \* subscription wedged by an abandoned request: C16)
+            { G(IF \E g \in gone : g.op \in {"Pull", "StreamOpen"} /\ g.sub = pend[c].e.sub THEN "C06,C16" ELSE "C06",
                     LET p == pend[c].e IN
                     (/\ (p.op = "Pull" /\ ~p.ri) \/ p.op = "StreamOpen"
                      /\ p.sub \in DOMAIN smap /\ S[smap[p.sub]].st = "live"
                      /\ smap[p.sub] \in SubLookups(Win(c), p.sub))
-                    => (S[smap[p.sub]].queue = <<>> /\ S[smap[p.sub]].inbox = <<>>)) }
+                    => (S[smap[p.sub]].queue = <<>> /\ S[smap[p.sub]].inbox = <<>>)) : c \in DOMAIN pend }
       [] e.k = "hang" ->
             { G("C07", FALSE) } \cup
             (IF e.c \in DOMAIN pend /\ pend[e.c].e.op \in {"StreamOpen", "Pull"}
@@ -648,7 +670,8 @@ EvApply(e) ==
          ELSE IF e.k = "srecv" THEN ContentAfter(e.msgs)
          ELSE content
     /\ gone' = IF e.k = "cancel" /\ e.c \in DOMAIN pend THEN gone \cup {pend[e.c].e} ELSE gone
-    /\ httpLast' = IF e.k = "http" /\ SubsNamed(e.sub) # {} THEN Put(httpLast, <<NewestNamed(e.sub), e.m>>, e.code) ELSE httpLast
+    /\ httpLast' = IF e.k = "http" /\ SubsNamed(e.sub) # {} THEN Put(httpLast, <<NewestNamed(e.sub), e.m>>, e.code)
+                   ELSE IF e.k = "httpans" THEN HttpAnswered(e) ELSE httpLast
     /\ delT' = IF e.k = "s.del1" THEN Put(delT, e.si, e.t) ELSE delT
     /\ obsDel' =
          IF e.k = "ret" /\ e.code = "NOT_FOUND" /\ pend[e.c].e.op \in {"GetSub", "Pull", "Ack", "ModAck", "DeleteSub"}
